@@ -282,7 +282,9 @@ func checkNodeDB(tag string, db util.NodeDB, fail func(string, ...interface{})) 
 	out := rawStore{}
 	err := db.Iterate(context.Background(), func(_ context.Context, key util.Key, node util.Node) error {
 		enc := node.Encode()
-		out[string(key)] = append([]byte(nil), enc...)
+		if _, seen := out[string(key)]; !seen { // a layered store yields the upper level first: that is the entry GetNode reads
+			out[string(key)] = append([]byte(nil), enc...)
+		}
 		checkEntry(tag, key, enc, node, fail)
 		return nil
 	})
